@@ -57,7 +57,7 @@ class Stuck(Exception):
 
 
 # sha256 of the source of the statements of the __main__ block that are NOT executed (everything before `compExperiment = None`)
-PRELUDE_SHA = "PLACEHOLDER"
+PRELUDE_SHA = "9e76eeac211b39a90cff667b46d2874b484802bbc9282f6216e847b9199eb6bc"
 
 STATE_NAME = {codes.RUNNING_STATE: "running", codes.POSTMORTEM_STATE: "running", codes.FINISHED_STATE: "finished",
               codes.FAILED_STATE: "failed", codes.SHUTDOWN_STATE: "shutdown"}
@@ -118,58 +118,7 @@ def load_elaunch():
     return m, code, sha
 
 
-# ---------------------------------------------------------------------------------------------------------------------------
-# scenarios
-
-class Scenario:
-    """nc[k] components in stage k; out[k][i] in ok | fail | shut (exit with KnownIssue: FAILED / SHUTDOWN through shutdownOn);
-    coe[k]: continue-on-error of stage k; start: None or the stage a second run restarts from (after a first run described by
-    `first`); setup: ok | badpkg (nothing can be loaded) | badexe (instance created, validation fails)."""
-
-    def __init__(self, nc, out, coe=None, start=None, setup="ok", first=None, name=None, chain=True):
-        self.chain = chain            # every component of stage k > 0 consumes the first component of stage k - 1
-        self.nc, self.out = list(nc), [list(o) for o in out]
-        self.ns = len(self.nc)
-        self.coe = list(coe) if coe else [False] * self.ns
-        self.start = start
-        self.setup = setup
-        self.first = first
-        self.name = name or self.key()
-
-    def key(self):
-        s = "-".join("".join(o[0] for o in outs) + ("c" if c else "") for outs, c in zip(self.out, self.coe))
-        if self.start is not None:
-            s += "@r%d" % self.start
-        if self.setup != "ok":
-            s += "@" + self.setup
-        if not self.chain:
-            s += "@free"
-        return s
-
-    def comp_name(self, k, i):
-        return "c%d%s" % (k, "ab"[i])
-
-    def ref(self, k, i):
-        return "stage%d.%s" % (k, self.comp_name(k, i))
-
-    def flowir(self):
-        comps = []
-        for k in range(self.ns):
-            for i in range(self.nc[k]):
-                c = {"name": self.comp_name(k, i), "stage": k,
-                     "command": {"executable": "echo" if self.setup != "badexe" else "/no/such/executable-g03", "arguments": "x"},
-                     "workflowAttributes": {"shutdownOn": ["KnownIssue"] if self.out[k][i] == "shut" else []}}
-                if self.chain and k > 0:
-                    c["references"] = ["stage%d.%s:ref" % (k - 1, self.comp_name(k - 1, 0))]
-                    c["command"]["arguments"] = c["references"][0]
-                if self.setup == "badpkg":
-                    c["references"] = ["stage0.nosuchcomponent:ref"]
-                comps.append(c)
-        doc = {"components": comps}
-        st = {k: {"continue-on-error": 1} for k in range(self.ns) if self.coe[k]}
-        if st:
-            doc["variables"] = {"default": {"stages": st}}
-        return doc
+from .g03_model import Scenario, FIELDS, parse_status_text  # noqa: E402,F401
 
 
 # ---------------------------------------------------------------------------------------------------------------------------
@@ -235,6 +184,7 @@ class PumpEvent:
                 idle += 1
                 if idle > 200:
                     raise Stuck("event still not set after %d timer advances" % idle)
+        h.log("Joined")
         return True
 
 
@@ -271,19 +221,6 @@ class Policy:
 
 # ---------------------------------------------------------------------------------------------------------------------------
 
-FIELDS = ("experiment-state", "stage-state", "exit-status", "current-stage", "total-progress", "stage-progress",
-          "error-description", "created-on", "completed-on", "updated-on")
-
-
-def parse_status_text(text):
-    d = {}
-    for line in text.split("\n"):
-        if "=" in line:
-            k, v = line.split("=", 1)
-            d[k.strip()] = v.strip()
-    return d
-
-
 class Harness:
     def __init__(self, scen, scratch, policy):
         self.sc = scen
@@ -309,6 +246,9 @@ class Harness:
         self.comp_prev = None
         self.tick_errors = []
         self.item_errors = []
+        self.override = None
+        self.buffering = False        # the launcher prepares the loaded document for a restart: one RestartReset record
+        self.ns = None                # elaunch's namespace
 
     # -- what ctl.FakeEngine needs --
     def event(self, name, arg=None, extra=None):
@@ -325,9 +265,10 @@ class Harness:
 
     def disk_doc(self):
         path = self.status_path
-        if path is not None and not os.path.exists(path) and self.exp is not None:
+        exp = self.exp if self.exp is not None else (self.ns or {}).get("compExperiment")
+        if path is not None and not os.path.exists(path) and exp is not None:
             # after consolidate() the output directory lives in the instance directory itself
-            path = os.path.join(self.exp.instanceDirectory.location, "output", "status.txt")
+            path = os.path.join(exp.instanceDirectory.location, "output", "status.txt")
         if path is None or not os.path.exists(path):
             return None
         with open(path) as f:
@@ -397,6 +338,8 @@ class Harness:
     def _log_comp(self, ev, arg, comps):
         st = self.snapshot()
         st["comps"] = [list(r) for r in comps]
+        if self.override:
+            st.update(self.override)
         self.trace.append(dict(ev=ev, arg=arg, st=st))
 
     # -- the other threads ----------------------------------------------------------------------------------------------
@@ -524,6 +467,9 @@ class Harness:
 
         class HController(RealController):
             def __init__(self, *a, **k):
+                if h.buffering:
+                    h.buffering = False
+                    h.log("RestartReset")
                 super().__init__(*a, **k)
                 self._event_scheduler = EnvTurn(h)
                 self._observe_completionCheck = lambda stage: None
@@ -533,7 +479,15 @@ class Harness:
 
             def initialise(self, stage, statusDatabase):
                 h.point("init")
+                prev = self.currentStage
                 r = super().initialise(stage, statusDatabase)
+                # what initialise() did to the components (a restart marks the earlier stages finished) happened before it
+                # recorded the new current stage
+                h.override = dict(cstage=(prev.index if prev is not None else None))
+                try:
+                    h.sync_comps()
+                finally:
+                    h.override = None
                 h.log("StageInit", stage.index)
                 return r
 
@@ -593,13 +547,13 @@ class Harness:
 
             def setter(self, *a):
                 r = orig(self, *a)
-                if not h.in_tick and self in h.status_objs:
+                if not h.in_tick and not h.buffering and self in h.status_objs:
                     h.log("Set", (field, (str(a[0]) if a and field in ("exit-status", "experiment-state") else None)))
                 return r
             inst._set(S, name, setter)
         for name, field in (("setExitStatus", "exit-status"), ("setErrorDescription", "error-description"),
                             ("removeErrorDescription", "no-error-description"), ("setCompleted", "completed-on"),
-                            ("setExperimentState", "experiment-state")):
+                            ("setExperimentState", "experiment-state"), ("setCreated", "created-on")):
             wrap_setter(name, field)
         orig_persist = S.persistentUpdate
 
@@ -632,6 +586,11 @@ class Harness:
         def sm_join(self):
             h.point("before-join")
             m_ = h.monitor
+            if m_ is None:
+                # the monitor was never started: nobody will ever set the event join() may wait for
+                def never(*a, **k):
+                    raise Stuck("join() of a status monitor that was never started")
+                self._condition_stopped = types.SimpleNamespace(wait=never, set=lambda: None, clear=lambda: None, is_set=lambda: False)
             if m_ is not None and not m_["done"]:
                 if not m_["cancel"].is_set():
                     raise Stuck("join() of a status monitor that was never cancelled")
@@ -658,6 +617,13 @@ class Harness:
             h.log("Increment", r)
             return r
         inst._set(E, "incrementStage", increment)
+        orig_scs = E.setCurrentStage
+
+        def set_current_stage(self, value):
+            r = orig_scs(self, value)
+            h.log("SetStage", value)
+            return r
+        inst._set(E, "setCurrentStage", set_current_stage)
         orig_lso = experiment.settings.load_settings_orchestrator
 
         def lso(*a, **k):
@@ -672,14 +638,24 @@ class Harness:
             h.ctx.append("setup")
             try:
                 h.point("setup")
-                return orig_setup(path, options)
+                r = orig_setup(path, options)
+                if r[1] is None:
+                    h.log("SetupFailed")
+                return r
             finally:
                 h.ctx.pop()
         inst._set(m, "Setup", setup)
 
         def run_fn(*a, **k):
             h.log("Run")
-            r = orig_run_fn(*a, **k)
+            h.point("in-run")
+            try:
+                r = orig_run_fn(*a, **k)
+            except KeyboardInterrupt:
+                raise
+            except BaseException as e:
+                h.log("RunRaised", type(e).__name__)
+                raise
             h.log("RunReturned")
             h.point("post-run")
             return r
@@ -694,8 +670,11 @@ class Harness:
         inst._set(m, "report_error", report)
 
         def gen(*a, **k):
+            h.log("EnterTry")
             h.point("pre-controller")
-            return orig_gen(*a, **k)
+            r = orig_gen(*a, **k)
+            h.buffering = h.ns["options"].restart is not None
+            return r
         inst._set(m, "generate_components", gen)
         inst._set(m, "threading", types.SimpleNamespace(Event=PumpEvent, Thread=threading.Thread, RLock=threading.RLock,
                                                         Lock=threading.Lock, current_thread=threading.current_thread))
@@ -728,6 +707,7 @@ def run_elaunch(scen, scratch, policy, argv, cwd):
     """One execution of the deployment part of elaunch.py.  -> Harness (trace, versions, exit_code, crash)"""
     m, code, sha = load_elaunch()
     h = Harness(scen, scratch, policy)
+    h.prelude_sha = sha
     base_threads = set(threading.enumerate())
     root = logging.getLogger()
     handlers0 = list(root.handlers)
@@ -737,6 +717,8 @@ def run_elaunch(scen, scratch, policy, argv, cwd):
     old_cwd = os.getcwd()
     os.chdir(cwd)
     ns = m.__dict__
+    h.ns = ns
+    ns["compExperiment"] = None
     try:
         with W.Installed(h.world) as inst:
             h.install(inst, m)
@@ -759,6 +741,14 @@ def run_elaunch(scen, scratch, policy, argv, cwd):
                 h.exit_code = 1
                 h.crash = "%s: %s" % (type(e).__name__, e)
                 h.crash_tb = traceback.format_exc()
+            if h.exit_code is not None and h.crash is None and h.monitor is not None and not h.monitor["done"]:
+                # the launcher is past its final status update and the monitor thread still has an action to perform: it performs it
+                # (and overwrites the final status) -- the specification has no such step
+                h.monitor_tick()
+            if h.crash is not None and h.crash.startswith("Stuck"):
+                h.log("Hung", h.crash)
+            elif h.crash is not None and h.crash != "KeyboardInterrupt":
+                h.log("Crash", h.crash)
             h.log("Exit", h.exit_code)
             sys.stderr.close()
     finally:
